@@ -1,8 +1,732 @@
+//! C14 — `sinktools` sink adaptors: every item reaches the sink it is addressed to exactly once and in
+//! order, for every readiness pattern of the downstream sinks; `start_send` only after `poll_ready`
+//! succeeded; lazy sinks/sources initialise at most once and lose nothing sent before/during init.
+//!
+//! The real adaptors are driven by a contract-obeying driver on a hand-written executor with counting
+//! wakers; the downstream is a scripted `CheckSink` that records every call. See `judge.rs` for the oracle.
+
+mod case;
+mod families;
+mod judge;
+mod world;
+
+use case::{ALL_FAMS, Case, Fam};
+use vcommon::{Args, Reporter, Rng, Tier, hash_of, json};
+use world::{Plan, SinkScript};
+
+// ---------------------------------------------------------------------------------------------
+// Enumeration helpers
+
+/// All answer scripts with at most `k` Pendings among the first `l` scripted calls (canonical form: no
+/// trailing Ready, because an exhausted script answers Ready).
+fn placements(l: usize, k: usize) -> Vec<Vec<bool>> {
+    fn rec(start: usize, l: usize, k: usize, cur: &mut Vec<usize>, out: &mut Vec<Vec<bool>>) {
+        let mut v = vec![false; cur.last().map(|p| p + 1).unwrap_or(0)];
+        for &p in cur.iter() {
+            v[p] = true;
+        }
+        out.push(v);
+        if cur.len() == k {
+            return;
+        }
+        for p in start..l {
+            cur.push(p);
+            rec(p + 1, l, k, cur, out);
+            cur.pop();
+        }
+    }
+    let mut out = vec![];
+    rec(0, l, k, &mut vec![], &mut out);
+    out
+}
+
+/// j Pendings then Ready, j = 0..=k.
+fn leading(k: usize) -> Vec<Vec<bool>> {
+    (0..=k).map(|j| vec![true; j]).collect()
+}
+
+/// All sequences over 0..alpha of length 0..=n.
+fn seqs(alpha: u8, n: usize) -> Vec<Vec<u8>> {
+    let mut out: Vec<Vec<u8>> = vec![vec![]];
+    let mut last: Vec<Vec<u8>> = vec![vec![]];
+    for _ in 0..n {
+        let mut next = vec![];
+        for s in &last {
+            for a in 0..alpha {
+                let mut t = s.clone();
+                t.push(a);
+                next.push(t);
+            }
+        }
+        out.extend(next.iter().cloned());
+        last = next;
+    }
+    out
+}
+
+/// One sequence per length (for adaptors whose behaviour does not depend on the values).
+fn lens(n: usize) -> Vec<Vec<u8>> {
+    (0..=n).map(|l| (0..l).map(|i| (i % 3) as u8).collect()).collect()
+}
+
+/// All vectors of `slots` counts with total ≤ k.
+fn count_vectors(slots: usize, k: usize) -> Vec<Vec<u8>> {
+    fn rec(i: usize, slots: usize, left: usize, cur: &mut Vec<u8>, out: &mut Vec<Vec<u8>>) {
+        if i == slots {
+            out.push(cur.clone());
+            return;
+        }
+        for c in 0..=left {
+            cur.push(c as u8);
+            rec(i + 1, slots, left - c, cur, out);
+            cur.pop();
+        }
+    }
+    let mut out = vec![];
+    rec(0, slots, k, &mut vec![], &mut out);
+    out
+}
+
+/// Init scripts: all sequences over {1 = self-wake, 2 = external event} of length ≤ k.
+fn init_scripts(k: usize) -> Vec<Vec<u8>> {
+    seqs(2, k).into_iter().map(|s| s.into_iter().map(|x| x + 1).collect()).collect()
+}
+
+struct Bounds {
+    /// ≤ k Pendings per inner sink in the ready phase
+    k_ready: usize,
+    /// ≤ k Pendings per inner sink in the flush phase and in the close phase
+    k_fc: usize,
+    /// fickle flush/close scripts may pend again after a Ready (only observable with several inner sinks
+    /// or repeated flushes)
+    fickle_fc_placements: bool,
+}
+
+/// Every script combination for one inner sink that is going to receive `n_i` items.
+fn sink_scripts(n_i: usize, extra_ready: usize, fickle: bool, b: &Bounds) -> Vec<SinkScript> {
+    let ready = placements(n_i + extra_ready, b.k_ready);
+    let fc = if fickle && b.fickle_fc_placements { placements(b.k_fc + 1, b.k_fc) } else { leading(b.k_fc) };
+    let mut out = Vec::with_capacity(ready.len() * fc.len() * fc.len());
+    for r in &ready {
+        for f in &fc {
+            for c in &fc {
+                out.push(SinkScript { ready: r.clone(), flush: f.clone(), close: c.clone(), err: None });
+            }
+        }
+    }
+    out
+}
+
+/// Call `f` with every element of the cartesian product of the per-sink script lists.
+fn product(lists: &[Vec<SinkScript>], f: &mut dyn FnMut(&[SinkScript])) {
+    fn rec(i: usize, lists: &[Vec<SinkScript>], cur: &mut Vec<SinkScript>, f: &mut dyn FnMut(&[SinkScript])) {
+        if i == lists.len() {
+            f(cur);
+            return;
+        }
+        for s in &lists[i] {
+            cur.push(s.clone());
+            rec(i + 1, lists, cur, f);
+            cur.pop();
+        }
+    }
+    rec(0, lists, &mut vec![], f);
+}
+
+// ---------------------------------------------------------------------------------------------
+// Running and reporting one case
+
+#[derive(Default, Clone)]
+struct FamStats {
+    runs: u64,
+    nontrivial: u64,
+    ok: u64,
+    err: u64,
+    panic: u64,
+    stuck: u64,
+    inner_pendings: u64,
+    init_pended: u64,
+    both_parked_on_init: u64,
+    pending_without_downstream_pending: u64,
+    repoll_after_ready: u64,
+    pending_after_ready_credit: u64,
+    fickle: u64,
+}
+
+struct Ctx {
+    rep: Reporter,
+    stats: Vec<FamStats>,
+    per_sig: std::collections::BTreeMap<String, u64>,
+    verbose: bool,
+}
+
+impl Ctx {
+    fn check(&mut self, c: &Case) {
+        let run = match vcommon::catch(|| families::run_case(c)) {
+            Ok(r) => r,
+            Err(m) => {
+                // the harness itself must not panic: the driver catches panics of the code under test
+                eprintln!("harness failure: run_case panicked: {m}\ncase: {}", c.to_json());
+                std::process::exit(3);
+            }
+        };
+        let v = judge::judge(c, &run);
+        if self.verbose {
+            for e in run.w.borrow().log.iter() {
+                eprintln!("  {e:?}");
+            }
+            eprintln!("  exec: {:?}", run.exec);
+            eprintln!("  verdict: {v:?}");
+        }
+        self.rep.evals(v.evals);
+        let st = &mut self.stats[c.fam as usize];
+        st.runs += 1;
+        st.fickle += c.fickle as u64;
+        match v.outcome {
+            "ok" => st.ok += 1,
+            "err" => st.err += 1,
+            "panic" => st.panic += 1,
+            _ => st.stuck += 1,
+        }
+        st.inner_pendings += v.inner_pendings as u64;
+        st.init_pended += v.init_pended as u64;
+        st.pending_without_downstream_pending += v.pending_without_downstream_pending as u64;
+        st.repoll_after_ready += v.repoll_after_ready as u64;
+        st.pending_after_ready_credit += v.pending_after_ready_credit as u64;
+        if c.fam == Fam::LazySinkSource && run.exec.choice_points > 1 && v.init_pended {
+            st.both_parked_on_init += 1;
+        }
+        if v.nontrivial {
+            st.nontrivial += 1;
+            self.rep.nontrivial(hash_of(c));
+            let out = v.outcome;
+            self.rep.sample(|| json!({"case": c.to_json(), "outcome": out}));
+        }
+        for f in &v.findings {
+            let sig = format!("C14|{}|{}", c.fam.name(), f.kind);
+            let n = self.per_sig.entry(sig.clone()).or_insert(0);
+            *n += 1;
+            let case = if *n <= 3 { c.to_json() } else { vcommon::Value::Null };
+            self.rep.violation(&sig, &f.what, case);
+        }
+    }
+}
+
+// ---------------------------------------------------------------------------------------------
+// Bounded-exhaustive sweeps
+
+struct Sweep {
+    n_max: usize,
+    /// n_max for the three-sink demux
+    n_max3: usize,
+    k: usize,
+    /// k for fickle scripts of multi-sink families
+    k_fickle_multi: usize,
+    k3_sticky: usize,
+    k3_fickle: usize,
+    k_init: usize,
+    n_lss: usize,
+    sched_len: u8,
+}
+
+fn plans(n: usize, rich: bool) -> Vec<Plan> {
+    let mut v = vec![
+        Plan { flush_after: 0, final_flush: true, gap_yield: false },
+        Plan { flush_after: 0, final_flush: false, gap_yield: false },
+    ];
+    if n >= 1 {
+        v.push(Plan { flush_after: 1, final_flush: true, gap_yield: false });
+    }
+    if rich {
+        for i in 1..n {
+            v.push(Plan { flush_after: 1 << i, final_flush: true, gap_yield: false });
+        }
+        if n >= 2 {
+            v.push(Plan { flush_after: (1 << n) - 1, final_flush: false, gap_yield: false });
+        }
+    }
+    v
+}
+
+fn n_for_sink(c: &Case, s: usize) -> usize {
+    case::expected_per_item(c).iter().flatten().filter(|(k, _)| *k as usize == s).count()
+}
+
+fn sweep_plain(ctx: &mut Ctx, sw: &Sweep) {
+    // single inner sink, value-sensitive
+    for &fam in &[Fam::Map, Fam::Filter, Fam::FilterMap, Fam::FlatMap, Fam::Flatten, Fam::Chain, Fam::SendIterChain] {
+        for items in seqs(3, sw.n_max) {
+            for fickle in [false, true] {
+                for plan in plans(items.len(), false) {
+                    if fam.self_driving() && (plan.flush_after != 0 || !plan.final_flush) {
+                        continue;
+                    }
+                    let mut c = Case::new(fam);
+                    c.items = items.clone();
+                    c.fickle = fickle;
+                    c.plan = plan;
+                    let n0 = n_for_sink(&c, 0);
+                    let b = Bounds { k_ready: sw.k, k_fc: sw.k, fickle_fc_placements: plan.flush_after != 0 };
+                    for s in sink_scripts(n0, if fam.self_driving() { 2 } else { 1 }, fickle, &b) {
+                        c.sinks[0] = s;
+                        ctx.check(&c);
+                    }
+                }
+            }
+        }
+    }
+    // single inner sink, value-insensitive: one sequence per length
+    for &fam in &[Fam::Inspect, Fam::SendIter] {
+        for items in lens(sw.n_max) {
+            for fickle in [false, true] {
+                for plan in plans(items.len(), true) {
+                    if fam.self_driving() && (plan.flush_after != 0 || !plan.final_flush) {
+                        continue;
+                    }
+                    let mut c = Case::new(fam);
+                    c.items = items.clone();
+                    c.fickle = fickle;
+                    c.plan = plan;
+                    let b = Bounds { k_ready: sw.k, k_fc: sw.k, fickle_fc_placements: true };
+                    for s in sink_scripts(items.len(), if fam.self_driving() { 2 } else { 1 }, fickle, &b) {
+                        c.sinks[0] = s;
+                        ctx.check(&c);
+                    }
+                }
+            }
+        }
+    }
+    // send_stream: stream pendings × sink scripts
+    for items in lens(sw.n_max) {
+        for fickle in [false, true] {
+            for sp in count_vectors(items.len() + 1, sw.k) {
+                let mut c = Case::new(Fam::SendStream);
+                c.items = items.clone();
+                c.fickle = fickle;
+                c.stream_pend = sp;
+                let b = Bounds { k_ready: sw.k, k_fc: sw.k, fickle_fc_placements: false };
+                for s in sink_scripts(items.len(), 2, fickle, &b) {
+                    c.sinks[0] = s;
+                    ctx.check(&c);
+                }
+            }
+        }
+    }
+    // closures as terminals (never pend)
+    for items in seqs(3, sw.n_max) {
+        for plan in plans(items.len(), false) {
+            let mut c = Case::new(Fam::ForEach);
+            c.items = items.clone();
+            c.plan = plan;
+            ctx.check(&c);
+            for fv in 0..=3 {
+                for fam in [Fam::TryForEach, Fam::ChainTry] {
+                    let mut c = Case::new(fam);
+                    c.items = items.clone();
+                    c.plan = plan;
+                    c.fail_val = fv;
+                    ctx.check(&c);
+                }
+            }
+        }
+    }
+}
+
+fn sweep_multi(ctx: &mut Ctx, sw: &Sweep) {
+    // two inner sinks: full product of per-sink placements
+    for &fam in &[Fam::Unzip, Fam::DemuxMap, Fam::DemuxMapLazy, Fam::DemuxVar2, Fam::ChainUnzip, Fam::SendStreamDemux] {
+        let item_seqs = match fam {
+            Fam::Unzip => lens(sw.n_max),
+            Fam::ChainUnzip => seqs(3, sw.n_max.min(3)),
+            Fam::SendStreamDemux => seqs(3, sw.n_max.min(3)),
+            _ => seqs(2, sw.n_max),
+        };
+        for items in item_seqs {
+            for fickle in [false, true] {
+                let k = if fickle { sw.k_fickle_multi } else { sw.k };
+                for plan in plans(items.len(), false) {
+                    if fam.self_driving() && (plan.flush_after != 0 || !plan.final_flush) {
+                        continue;
+                    }
+                    // mid-stream flush / close-without-flush plans only with the sticky flavour to keep
+                    // the product affordable; the fickle flavour runs the plain plan
+                    if fickle && (plan.flush_after != 0 || !plan.final_flush) {
+                        continue;
+                    }
+                    let mut c = Case::new(fam);
+                    c.items = items.clone();
+                    c.fickle = fickle;
+                    c.plan = plan;
+                    let kk = if plan.flush_after != 0 || !plan.final_flush { k.min(1) } else { k };
+                    let b = Bounds { k_ready: kk, k_fc: kk, fickle_fc_placements: true };
+                    let extra = if fam.self_driving() { 2 } else { 1 };
+                    let lists: Vec<Vec<SinkScript>> =
+                        (0..2).map(|s| sink_scripts(n_for_sink(&c, s), extra, fickle, &b)).collect();
+                    let sps = if fam == Fam::SendStreamDemux { count_vectors(items.len() + 1, 1) } else { vec![vec![]] };
+                    for sp in sps {
+                        c.stream_pend = sp;
+                        let mut cc = c.clone();
+                        product(&lists, &mut |ss| {
+                            cc.sinks.clear();
+                            cc.sinks.extend_from_slice(ss);
+                            ctx.check(&cc);
+                        });
+                    }
+                }
+            }
+        }
+    }
+    // three inner sinks
+    for items in seqs(3, sw.n_max3) {
+        for fickle in [false, true] {
+            let k = if fickle { sw.k3_fickle } else { sw.k3_sticky };
+            let mut c = Case::new(Fam::DemuxVar3);
+            c.items = items.clone();
+            c.fickle = fickle;
+            let b = Bounds { k_ready: k, k_fc: k, fickle_fc_placements: true };
+            let lists: Vec<Vec<SinkScript>> = (0..3).map(|s| sink_scripts(n_for_sink(&c, s), 1, fickle, &b)).collect();
+            let mut cc = c.clone();
+            product(&lists, &mut |ss| {
+                cc.sinks.clear();
+                cc.sinks.extend_from_slice(ss);
+                ctx.check(&cc);
+            });
+        }
+    }
+}
+
+fn sweep_errors(ctx: &mut Ctx, sw: &Sweep) {
+    // one injected error: every inner sink × phase × call index, with ≤ 1 Pending per phase
+    for &fam in ALL_FAMS {
+        if fam.n_sinks() == 0 {
+            continue;
+        }
+        let n_max = sw.n_max.min(3);
+        let item_seqs = if fam.keyed() {
+            seqs(if fam == Fam::SendStreamDemux { 3 } else { fam.n_sinks() as u8 }, n_max)
+        } else if matches!(fam, Fam::Filter | Fam::FilterMap | Fam::FlatMap | Fam::Flatten | Fam::Chain | Fam::ChainUnzip | Fam::SendIterChain) {
+            seqs(3, n_max)
+        } else {
+            lens(n_max)
+        };
+        for items in item_seqs {
+            for fickle in [false, true] {
+                for es in 0..fam.n_sinks() {
+                    for phase in 0..4u8 {
+                        for at in 0..=(items.len() as u8 + 1).min(4) {
+                            let mut c = Case::new(fam);
+                            c.items = items.clone();
+                            c.fickle = fickle;
+                            if fam.lazy() {
+                                c.init = vec![2];
+                                c.src_items = 1;
+                            }
+                            let b = Bounds { k_ready: 1, k_fc: 1, fickle_fc_placements: false };
+                            let ni = n_for_sink(&c, es);
+                            for mut s in sink_scripts(ni, 1, fickle, &b) {
+                                s.err = Some((phase, at));
+                                c.sinks[es] = s;
+                                ctx.check(&c);
+                            }
+                        }
+                    }
+                }
+            }
+        }
+    }
+}
+
+fn sweep_lazy(ctx: &mut Ctx, sw: &Sweep) {
+    let inits = init_scripts(sw.k_init);
+    // LazySink
+    for items in lens(sw.n_max) {
+        for fickle in [false, true] {
+            for init in &inits {
+                for init_err in [false, true] {
+                    for plan in plans(items.len(), true) {
+                        let mut c = Case::new(Fam::LazySink);
+                        c.items = items.clone();
+                        c.fickle = fickle;
+                        c.init = init.clone();
+                        c.init_err = init_err;
+                        c.plan = plan;
+                        let b = Bounds { k_ready: sw.k, k_fc: sw.k.min(2), fickle_fc_placements: plan.flush_after != 0 };
+                        let scripts = if init_err { vec![SinkScript::default()] } else { sink_scripts(items.len(), 1, fickle, &b) };
+                        for s in scripts {
+                            c.sinks[0] = s;
+                            ctx.check(&c);
+                        }
+                    }
+                }
+            }
+        }
+    }
+    // LazySource
+    for n in 0..=sw.n_max {
+        for init in &inits {
+            for init_err in [false, true] {
+                for sp in count_vectors(n + 1, sw.k) {
+                    let mut c = Case::new(Fam::LazySource);
+                    c.src_items = n as u8;
+                    c.init = init.clone();
+                    c.init_err = init_err;
+                    c.stream_pend = sp;
+                    ctx.check(&c);
+                    if init_err {
+                        break;
+                    }
+                }
+            }
+        }
+    }
+    // LazySinkSource: two tasks, every schedule bit-string of the given length
+    for items in lens(sw.n_lss) {
+        for fickle in [false, true] {
+            for init in &inits {
+                for init_err in [false, true] {
+                    for plan in plans(items.len(), false) {
+                        for gap in [false, true] {
+                            if gap && items.is_empty() {
+                                continue;
+                            }
+                            for (with_reader, src_items, sps) in [
+                                (false, 0u8, vec![vec![]]),
+                                (true, 0, vec![vec![], vec![1]]),
+                                (true, 2, vec![vec![], vec![1, 0, 0], vec![0, 1, 0], vec![0, 0, 1]]),
+                            ] {
+                                for sp in sps {
+                                    let b = Bounds { k_ready: sw.k.min(2), k_fc: 1, fickle_fc_placements: false };
+                                    let scripts = if init_err { vec![SinkScript::default()] } else { sink_scripts(items.len(), 1, fickle, &b) };
+                                    let scheds: u32 = if with_reader { 1 << sw.sched_len } else { 1 };
+                                    for s in scripts {
+                                        for sched in 0..scheds {
+                                            let mut c = Case::new(Fam::LazySinkSource);
+                                            c.items = items.clone();
+                                            c.fickle = fickle;
+                                            c.init = init.clone();
+                                            c.init_err = init_err;
+                                            c.plan = Plan { gap_yield: gap, ..plan };
+                                            c.with_reader = with_reader;
+                                            c.src_items = src_items;
+                                            c.stream_pend = sp.clone();
+                                            c.sched = sched;
+                                            c.sched_len = if with_reader { sw.sched_len } else { 0 };
+                                            c.sinks[0] = s.clone();
+                                            ctx.check(&c);
+                                        }
+                                    }
+                                }
+                            }
+                        }
+                    }
+                }
+            }
+        }
+    }
+}
+
+// ---------------------------------------------------------------------------------------------
+// Random cases
+
+fn random_case(rng: &mut Rng, max_len: usize) -> Case {
+    let fam = *rng.choose(ALL_FAMS);
+    let mut c = Case::new(fam);
+    let n = rng.below(max_len + 1);
+    let alpha = if fam.keyed() { if fam == Fam::SendStreamDemux { 3 } else { fam.n_sinks() } } else { 3 };
+    c.items = (0..n).map(|_| rng.below(alpha) as u8).collect();
+    c.fickle = rng.chance(1, 2);
+    let dens = rng.below(61) as u32; // percent
+    let script = |rng: &mut Rng, len: usize| -> Vec<bool> { (0..len).map(|_| rng.chance(dens, 100)).collect() };
+    for s in 0..fam.n_sinks() {
+        let ni = n_for_sink(&c, s);
+        let (lr, lf, lc) = (ni + 2 + rng.below(4), 1 + rng.below(6), 1 + rng.below(4));
+        c.sinks[s] = SinkScript { ready: script(rng, lr), flush: script(rng, lf), close: script(rng, lc), err: None };
+    }
+    if fam.n_sinks() > 0 && rng.chance(15, 100) {
+        let s = rng.below(fam.n_sinks());
+        c.sinks[s].err = Some((rng.below(4) as u8, rng.below(n_for_sink(&c, s) + 2).min(250) as u8));
+    }
+    let mut mask = 0u32;
+    if rng.chance(1, 2) {
+        for i in 0..n.min(32) {
+            if rng.chance(1, 4) {
+                mask |= 1 << i;
+            }
+        }
+    }
+    c.plan = Plan { flush_after: mask, final_flush: rng.chance(4, 5), gap_yield: rng.chance(3, 10) };
+    if fam.lazy() {
+        c.init = (0..rng.below(5)).map(|_| 1 + rng.below(2) as u8).collect();
+        c.init_err = rng.chance(15, 100);
+        c.src_items = rng.below(7) as u8;
+        c.with_reader = fam == Fam::LazySinkSource && rng.chance(85, 100);
+        c.sched = rng.next_u64() as u32;
+        c.sched_len = 24;
+    }
+    if fam.uses_stream_input() {
+        c.stream_pend = (0..=n).map(|_| if rng.chance(dens, 100) { 1 + rng.below(2) as u8 } else { 0 }).collect();
+    } else if fam.lazy() {
+        c.stream_pend =
+            (0..=c.src_items).map(|_| if rng.chance(dens, 100) { 1 + rng.below(2) as u8 } else { 0 }).collect();
+    }
+    if fam.func_terminal() && fam != Fam::ForEach {
+        c.fail_val = if rng.chance(1, 2) { 3 } else { rng.below(3) as u8 };
+    }
+    c
+}
+
+// ---------------------------------------------------------------------------------------------
+
 fn main() {
-    let args = vcommon::Args::parse();
+    let args = Args::parse();
     if args.prop == "NONE" {
         return;
     }
-    eprintln!("not implemented yet");
-    std::process::exit(3);
+    if args.prop != "C14" {
+        eprintln!("mon_sinks serves C14 only (got {})", args.prop);
+        std::process::exit(3);
+    }
+    vcommon::install_quiet_panic_hook();
+    let mut ctx = Ctx {
+        rep: Reporter::new("C14", args.seed),
+        stats: vec![FamStats::default(); ALL_FAMS.len()],
+        per_sig: Default::default(),
+        verbose: false,
+    };
+
+    if let Some(v) = args.replay_case() {
+        let Some(c) = Case::from_json(&v) else {
+            eprintln!("replay descriptor is not a mon_sinks case");
+            std::process::exit(3);
+        };
+        ctx.verbose = true;
+        eprintln!("replaying {}", c.to_json());
+        ctx.check(&c);
+        ctx.rep.finish("replay of one recorded case", false);
+        return;
+    }
+
+    let mut rng = args.rng();
+    let exhaustive;
+    match args.tier {
+        Tier::Quick | Tier::Thorough => {
+            let sw = if args.tier == Tier::Quick {
+                Sweep { n_max: 4, n_max3: 3, k: 2, k_fickle_multi: 2, k3_sticky: 2, k3_fickle: 1, k_init: 2, n_lss: 3, sched_len: 4 }
+            } else {
+                Sweep { n_max: 4, n_max3: 4, k: 3, k_fickle_multi: 2, k3_sticky: 2, k3_fickle: 1, k_init: 3, n_lss: 4, sched_len: 5 }
+            };
+            sweep_plain(&mut ctx, &sw);
+            sweep_multi(&mut ctx, &sw);
+            sweep_errors(&mut ctx, &sw);
+            sweep_lazy(&mut ctx, &sw);
+            exhaustive = true;
+            let runs = args.budget(20_000, 1_000_000, 0);
+            for _ in 0..runs {
+                let c = random_case(&mut rng, 30);
+                ctx.check(&c);
+            }
+        }
+        Tier::Miri => {
+            // tiny: a thin deterministic slice of the sweeps plus a few random cases, sharded
+            exhaustive = false;
+            let mut idx = 0usize;
+            let mut cases: Vec<Case> = vec![];
+            for &fam in ALL_FAMS {
+                for fickle in [false, true] {
+                    let mut c = Case::new(fam);
+                    c.fickle = fickle;
+                    c.items = if fam.keyed() { vec![0, 1, 0] } else { vec![2, 1, 0, 2] };
+                    if fam == Fam::DemuxVar3 {
+                        c.items = vec![2, 0, 1, 2];
+                    }
+                    for s in 0..fam.n_sinks() {
+                        c.sinks[s] = SinkScript { ready: vec![s == 0, true, false, true], flush: vec![true], close: vec![s == 1], err: None };
+                    }
+                    if fam.lazy() {
+                        c.init = vec![2, 1];
+                        c.src_items = 2;
+                        c.stream_pend = vec![0, 1, 0];
+                        c.sched = if fickle { 0b0101 } else { 0b0010 };
+                        c.sched_len = 4;
+                    }
+                    if fam.uses_stream_input() {
+                        c.stream_pend = vec![1, 0, 1, 0, 0];
+                    }
+                    c.plan.flush_after = 0b10;
+                    cases.push(c.clone());
+                    if fam.n_sinks() > 0 {
+                        c.sinks[fam.n_sinks() - 1].err = Some((if fickle { 1 } else { 2 }, 1));
+                        cases.push(c.clone());
+                    }
+                    if fam.lazy() {
+                        c.sinks.iter_mut().for_each(|s| s.err = None);
+                        c.init_err = true;
+                        cases.push(c);
+                    }
+                }
+            }
+            for _ in 0..60 {
+                cases.push(random_case(&mut rng, 8));
+            }
+            for c in cases {
+                if args.in_shard(idx) {
+                    ctx.check(&c);
+                }
+                idx += 1;
+            }
+        }
+    }
+
+    // ---- evidence and minimum observation -------------------------------------------------------
+    let mut fam_json = serde_json_map();
+    for &fam in ALL_FAMS {
+        let s = &ctx.stats[fam as usize];
+        fam_json.insert(
+            fam.name().to_string(),
+            json!({"runs": s.runs, "nontrivial": s.nontrivial, "ok": s.ok, "err": s.err, "panic": s.panic, "stuck": s.stuck,
+                   "fickle_runs": s.fickle, "inner_pendings": s.inner_pendings, "init_pended_runs": s.init_pended,
+                   "both_halves_contended_while_init_pending": s.both_parked_on_init,
+                   "adaptor_pending_without_downstream_pending": s.pending_without_downstream_pending,
+                   "inner_repolled_after_ready_ok": s.repoll_after_ready,
+                   "fickle_pending_after_ready_ok_before_send": s.pending_after_ready_credit}),
+        );
+    }
+    ctx.rep.extra("families", vcommon::Value::Object(fam_json));
+    let miri = args.tier == Tier::Miri;
+    if !miri {
+        for &fam in ALL_FAMS {
+            let s = ctx.stats[fam as usize].clone();
+            ctx.rep.require(s.runs > 0, &format!("family {} was never run", fam.name()));
+            if fam.n_sinks() > 0 || fam == Fam::LazySource {
+                ctx.rep.require(s.nontrivial >= 50, &format!("family {}: fewer than 50 non-trivial runs ({})", fam.name(), s.nontrivial));
+            }
+            if fam.n_sinks() > 0 {
+                ctx.rep.require(s.err > 0, &format!("family {}: no run ended with a propagated error", fam.name()));
+                ctx.rep.require(s.fickle > 0 && s.fickle < s.runs, &format!("family {}: both sink flavours must be run", fam.name()));
+            }
+            ctx.rep.require(s.ok > 0, &format!("family {}: no run completed with Ok", fam.name()));
+        }
+        let t = ctx.stats[Fam::TryForEach as usize].clone();
+        ctx.rep.require(t.err > 0 && t.ok > 0, "try_for_each: need failing and succeeding closures");
+        let l = ctx.stats[Fam::LazySinkSource as usize].clone();
+        ctx.rep.require(l.both_parked_on_init >= 100, "lazy_sink_source: fewer than 100 runs in which both halves were scheduled against each other while the init future was pending");
+    } else {
+        ctx.rep.require(ctx.stats.iter().map(|s| s.runs).sum::<u64>() > 0 || args.shard.1 > 200, "miri shard ran nothing");
+    }
+    let rule = "Real sinktools adaptors (map, filter, filter_map, inspect, flat_map, flatten, unzip, for_each, try_for_each, send_iter, send_stream, \
+demux_map, demux_map_lazy, demux_var with 2 and 3 sinks, LazySink, LazySource, LazySinkSource, and four SinkBuild chains) are driven by a Sink-contract-obeying \
+driver on a hand-written executor with counting wakers against scripted CheckSinks (sticky: Ready(Ok) stays until a start_send; fickle: may pend again) \
+that record every call. Bounded-exhaustive part: item sequences of length <= 4 over {0,1,2} (keys for demux; one sequence per length where values are \
+irrelevant) x every placement of <= k Pendings per inner sink in each of the ready/flush/close phases (k = 2 quick / 3 thorough for single-sink families and \
+sticky two-sink families, 2 for fickle two-sink families; three-sink demux_var: items <= 3 quick / 4 thorough, k = 2 sticky / 1 fickle), the full product over the inner \
+sinks of unzip/demux, x driver plans (final flush or close-only, a complete flush after the first item); one injected error at every (inner sink, phase, call index) \
+for items <= 3; lazy family: init-future scripts of <= 2/3 Pendings (self-waking or woken by an external event fired at quiescence) x Ok/Err outcome x flush/close \
+interleavings, LazySinkSource with the sink driver and the source reader as two tasks with distinct counting wakers under every schedule bit-string of length 4/5, \
+with and without a yield between poll_ready and start_send. Random part: 20 000 / 1 000 000 runs, length <= 30, Pending density 0-60 %, 15 % injected errors. \
+A run is non-trivial if an inner sink answered Pending between two of its items or during flush/close, or (lazy family) if the init future answered Pending at least once.";
+    ctx.rep.finish(rule, exhaustive);
+}
+
+fn serde_json_map() -> vcommon::serde_json::Map<String, vcommon::Value> {
+    vcommon::serde_json::Map::new()
 }
